@@ -92,6 +92,8 @@ class Registry:
         self.fold_cache: dict = {}
         self.fold_defs: dict = {}
         self.map_defs: dict = {}
+        self.spec_memo: dict = {}
+        self.specialisations = 0
         self.map_cache: dict = {}
         self.uf_cache: dict = {}
         self.qfacts: list = []        # quantified facts registered for instantiation
@@ -862,7 +864,49 @@ class Registry:
                 raise EngineUnsupported(f"unexpected keyword {k}")
         return env
 
+    def _memo_key(self, v):
+        if isinstance(v, (VInt, VBool, VStr)):
+            return ("t", v.t.get_id())
+        if isinstance(v, VSeq):
+            return ("s", str(v.elem), v.t.get_id())
+        if isinstance(v, (VRec, VOpt)):
+            return ("r", v.ty.name if isinstance(v, VRec) else str(v.ty), v.t.get_id())
+        if isinstance(v, VTuple):
+            return ("T",) + tuple(self._memo_key(i) for i in v.items)
+        if v is VNone:
+            return ("n",)
+        raise KeyError
+
     def inline_call(self, ex: Executor, st: State, f: VFunc, args, kwargs, node):
+        # spec functions are pure functions of their (term-valued) arguments: memoise per run
+        if f.qualname.startswith("spec:") and isinstance(ex, SpecExecutor) and not kwargs:
+            try:
+                key = (f.qualname,) + tuple(self._memo_key(a) for a in args)
+            except KeyError:
+                key = None
+            if key is not None:
+                hit = self.spec_memo.get(key)
+                if hit is not None:
+                    val, facts = hit
+                    have = {t.get_id() for _, t in st.pc}
+                    for lab, t in facts:
+                        if t.get_id() not in have:
+                            st.pc.append((lab, t))
+                    return [(st, val)]
+                n0 = len(st.pc)
+                spec0 = self.specialisations
+                res = self._inline_call(ex, st, f, args, kwargs, node)
+                if len(res) == 1 and not isinstance(res[0][1], Raised) and self.specialisations == spec0:
+                    s2, v = res[0]
+                    try:
+                        self._memo_key(v)
+                        self.spec_memo[key] = (v, list(s2.pc[n0:]))
+                    except KeyError:
+                        pass
+                return res
+        return self._inline_call(ex, st, f, args, kwargs, node)
+
+    def _inline_call(self, ex: Executor, st: State, f: VFunc, args, kwargs, node):
         if isinstance(f.node, ast.Lambda):
             env = dict(getattr(f, "closure", {}) or {})
             names = [a.arg for a in f.node.args.args]
@@ -1741,8 +1785,10 @@ class SpecExecutor(Executor):
         hy = [h for _, h in st.pc if not verify_has_quant(h)]
         if len(hy) < 60:
             if solve.quick_unsat(hy + [z3.Not(c)], 150):
+                self.reg.specialisations += 1       # the value now depends on the path: not memoisable
                 return self.eval(st, e.body)
             if solve.quick_unsat(hy + [c], 150):
+                self.reg.specialisations += 1
                 return self.eval(st, e.orelse)
         return [(st, self.ite_val(st, c, self.one(st, e.body), self.one(st, e.orelse)))]
 
